@@ -620,6 +620,17 @@ func (e *env) runStorm(sc Scenario) {
 	if err != nil {
 		panic(err)
 	}
+	// The agent creates its exit handler lazily with an unsynchronised first
+	// check (ensureExitHandler); concurrent first adds would race on that
+	// pointer, which is a Go data race but not what this property is about
+	// (reported in DESIGN.md as an observation). One sequential add/remove pair
+	// creates the handler before the storm; it leaves the state as it was.
+	if a.VerifExitHandler() == nil {
+		if _, err := a.ManageRoute("add", st.Forms[0], 1); err == nil {
+			a.ManageRoute("remove", st.Forms[0], 0)
+		}
+		attach()
+	}
 	var lastMetric uint16
 	var allowAfterAdds, dynAfterAdds string
 	failed := false
